@@ -105,7 +105,7 @@ func checkC13(h *harness.H, ci interface{}) *harness.Failure {
 		}
 		first := rep
 		if i := strings.Index(rep[20:], "=================="); i > 0 {
-			first = rep[:i+40]
+			first = rep[:min(len(rep), i+40)]
 		}
 		return harness.Failf("[%s] the race detector reported %d data race(s); access sites: %s\nfirst report:\n%s\nprogram:\n%s", cfg, len(fps), strings.Join(uniq, "; "), short(first, 3000), c.Text)
 	}
@@ -114,7 +114,7 @@ func checkC13(h *harness.H, ci interface{}) *harness.Failure {
 		sort.Strings(fps)
 		first := rep
 		if i := strings.Index(rep[20:], "=================="); i > 0 {
-			first = rep[:i+40]
+			first = rep[:min(len(rep), i+40)]
 		}
 		return harness.Failf("[%s] the race detector reported %d data race(s); access sites: %s\nfirst report:\n%s\nprogram:\n%s", where, len(fps), strings.Join(fps, "; "), short(first, 3000), c.Text)
 	}
